@@ -8,7 +8,7 @@
    [dv_repaired] the redesign in which cancel never waits for a running callback.
    libevent's choice of the next expired timer is the parameter [pick], constrained only by
    [pick_sound] (it picks a due timer with the least due time). *)
-From V Require Import Base Delay DelayLemmas DelayRaceLemmas DelayOracleLemmas DelayLockLemmas DelayParse DelayParseLemmas.
+From V Require Import Base Delay DelayLemmas DelayRaceLemmas DelayOracleLemmas DelayLiveLemmas DelayLockLemmas DelayParse DelayParseLemmas.
 Local Open Scope N_scope.
 
 (* ---- all variants, all programs, all schedules ---- *)
@@ -64,6 +64,48 @@ Theorem cancel_removes_all_with_sendid : forall v pick, pick_sound pick ->
     lookup (pending s) u = None /\ tpc_on (tpc s) <> Some u /\ ~ In u (delivered (trace s)).
 Proof. exact cancel_removes_all_lemma. Qed.
 Print Assumptions cancel_removes_all_with_sendid.
+
+(* U: an event that was sent and whose sendid the program never cancels (no <cancel> of that
+   sendid, no cancelAllDelayed) is delivered -- exactly once by fires_at_most_once: at every moment
+   it is delivered or still in flight (timer armed, or callback before the delivery), and in a
+   finished run it is delivered.  For every variant in which InterpreterImpl::enqueue records the
+   target together with arming the timer under _delayMutex (the code as it is). *)
+Theorem sent_uncancelled_is_delivered : forall v pick, pick_sound pick -> dv_enqueue_arms_first v = false ->
+  forall p sched u sid tgt enq d,
+  wf_prog p = true -> has_cancel_all p = false -> ~ In sid (cancel_sids p) ->
+  let s := run v pick (init p) sched in
+  In (ESend u sid tgt enq d) (trace s) ->
+  (In u (delivered (trace s)) \/ flight s u) /\ (finished s = true -> In u (delivered (trace s))).
+Proof.
+  intros v pick Hp Hr p sched u sid tgt enq d Hwf Hna Hnc s Hin. split.
+  - now apply (sent_uncancelled_in_flight_lemma v pick Hp Hr p sched u sid tgt enq d).
+  - intros Hf. now apply (sent_uncancelled_is_delivered_lemma v pick Hp Hr p sched u sid tgt enq d).
+Qed.
+Print Assumptions sent_uncancelled_is_delivered.
+
+(* U: the executable form (complete_b), applied by the check to every finished run observed on the
+   implementation, accepts every finished run of the model *)
+Theorem finished_history_complete : forall v pick, pick_sound pick -> dv_enqueue_arms_first v = false ->
+  forall p sched, wf_prog p = true ->
+  let s := run v pick (init p) sched in
+  finished s = true -> complete_b p (trace s) = true.
+Proof. exact complete_b_finished_lemma. Qed.
+Print Assumptions finished_history_complete.
+
+(* ... refuted for an enqueue that arms the timer before it records the target: the timer fires in
+   between, eventReady finds no entry and drops the event *)
+Theorem sent_uncancelled_is_delivered_arms_first_refuted :
+  exists pick p sched u sid tgt enq d, pick_sound pick /\ wf_prog p = true /\ has_cancel_all p = false /\
+    ~ In sid (cancel_sids p) /\
+    let s := run dv_arms_first pick (init p) sched in
+    finished s = true /\ In (ESend u sid tgt enq d) (trace s) /\ ~ In u (delivered (trace s)).
+Proof.
+  exists pick_min, w_lost_prog, w_lost, 1, 1, 0, 0, 1.
+  destruct arms_first_loses_event as (H1 & H2 & H3 & H4 & H5 & H6 & _).
+  split; [exact pick_min_sound|]. split; [exact H1|]. split; [exact H2|]. split; [rewrite H3; intros []|].
+  split; [exact H4|]. split; [exact H5|]. rewrite H6. intros [].
+Qed.
+Print Assumptions sent_uncancelled_is_delivered_arms_first_refuted.
 
 (* U: the executable oracle that judges the histories observed on the implementation
    (delay_admissibleb: at most once, not early, due order, cancel before due) accepts every
